@@ -37,7 +37,9 @@ def rtype(base, rs, join):
     key = (base, tuple(sorted(rs)), join)
     if key not in _T:
         try:
-            _T[key] = restricted_number_type(None, base, list(rs), join=join)
+            given = list(rs)
+            _T[key] = restricted_number_type(None, base, given, join=join)
+            given[:] = [("==", 424242)]  # the caller goes on using its list: the type keeps what it was created with
         except ValueError:
             _T[key] = None  # same restriction as a predefined type / automatic-name clash
     return _T[key]
@@ -240,13 +242,14 @@ def reg_values(rng, which):
         return [td(0), td(seconds=5), td(microseconds=1), td(milliseconds=500), td(days=1), td(days=-1), td(days=2, hours=3), td(hours=30), td(seconds=-1), td(microseconds=-1), td(days=-1, seconds=1), td(days=400, microseconds=5),
                 td(days=50000, microseconds=123456), td(days=999999, microseconds=1), td(days=-999999, microseconds=1), td.max, td.min, td.min + td(microseconds=1), td(days=999999999), td(days=-999999999), td(hours=1, minutes=2, seconds=3, microseconds=400), td(seconds=rng.randrange(10**7), microseconds=rng.randrange(10**6)), td(days=rng.randrange(-9, 9), seconds=rng.randrange(86400))]
     if which == "bytes":
-        return [b"abc", b"", b"\x00\xff", b"\xd7m\xf8", bytes(range(256)), b"\xd7\x7d\x74", bytes(rng.randrange(256) for _ in range(rng.randrange(1, 9))), b"\x35\xeb\x5d\x35", b"\xd5\xed\x74"]
+        return [b"abc", b"", b"\x00\xff", b"\xd7m\xf8", bytes(range(256)), b"\xd7\x7d\x74", bytes(rng.randrange(256) for _ in range(rng.randrange(1, 9))), b"\x35\xeb\x5d\x35", b"\xd5\xed\x74", b"\x9e\xe9e"]
     if which == "bytearray":
         return [bytearray(b"abc"), bytearray(b""), bytearray(b"\x00\xff"), bytearray(rng.randrange(256) for _ in range(rng.randrange(1, 9)))]
     if which == "range":
         return [range(5), range(0), range(2, 7), range(0, 10, 3), range(0, 10, 2), range(0, -5, -1), range(0, 0, 2), range(5, 0, -1), range(-3, 3), range(7, 7), range(1, 10, 1), range(0, 10**12, 10**6), range(rng.randrange(-5, 5), rng.randrange(-5, 9), rng.choice([-2, -1, 1, 2, 3]))]
     if which == "pathlib":
-        return [pathlib.Path("some/rel/path.txt"), pathlib.Path("/abs/path"), pathlib.Path("."), pathlib.Path("file with space.yaml"), pathlib.Path("~/x"), pathlib.Path("a/../b"), pathlib.Path("1e3"), pathlib.Path("null"), pathlib.Path("007")]
+        return [pathlib.Path("some/rel/path.txt"), pathlib.Path("/abs/path"), pathlib.Path("."), pathlib.Path("file with space.yaml"), pathlib.Path("~/x"), pathlib.Path("a/../b"), pathlib.Path("1e3"), pathlib.Path("null"), pathlib.Path("007"),
+                pathlib.Path("~"), pathlib.Path("#recycle"), pathlib.Path("C: drive")]
     raise AssertionError(which)
 
 
@@ -354,6 +357,21 @@ def check_registered(ctx, rng, which):
                     d = same_reg(x, oa.value.k)
                     if d:
                         ctx.violation("registered", f"{which}/argv-roundtrip-differs/{cls}", dict(value=repr(x), argv=argv, back=repr(oa.value.k), why=d))
+
+
+            # the append spelling takes the same representation as an item: --k+=<text> on a list of the type
+            if shape == "list":
+                text = handler.serializer(x)
+                text = text if isinstance(text, str) else json.dumps(text)
+                oa = call(p.parse_args, [f"--k+={text}"])
+                ctx.count("mon.registered.argv_append")
+                if not oa.accepted:
+                    ctx.violation("registered", f"{which}/argv-append-rejected/{cls}/{lex(text)}", dict(value=repr(x), argv=[f"--k+={text}"], outcome=oa.brief()))
+                else:
+                    back = oa.value.k
+                    d = same_reg(x, back[-1]) if isinstance(back, list) and back else "not a list"
+                    if d:
+                        ctx.violation("registered", f"{which}/argv-append-differs/{cls}", dict(value=repr(x), argv=[f"--k+={text}"], back=repr(back), why=d))
 
 
 # ---- secrets -------------------------------------------------------------------------------------
